@@ -1,7 +1,7 @@
 """C20 - driver contract: exit status, all-or-nothing output, flags.
 
 1. TLC model-checks SyltDriver (MC_Driver): every configuration (sink x --require spelling x --no-std x program class x
-   uses-std; 2800) is walked to its end with the contract (exit = 0 <=> success, every error printed, FILE / stdout /
+   uses-std; 6720) is walked to its end with the contract (exit = 0 <=> success, every error printed, FILE / stdout /
    the child's chunk complete or untouched, run output only in run mode) evaluated in every state, and one REPLAY
    record per behaviour is printed. Three defective variants of the machine (partial write, silent exit, exit 0
    despite errors) must each violate the matching invariant (spec-level negative controls).
@@ -15,7 +15,7 @@
    (exit status flipped, errors not / partly / twice printed, FILE half-written / truncated / one byte short, an extra
    byte on `-o -`, the require twice / missing / late / of another module, --no-std changing the program, the program
    never run). TLC must reject every such record with the verdict of its clause and must reject nothing else.
-quick = the whole configuration space x 3 programs per class (canonical spelling); thorough = x 3 x 4 command-line spellings.
+quick = the whole configuration space once (variant 0, canonical spelling); thorough = x 3 programs per class x 2 spellings.
 """
 import json
 import os
@@ -34,7 +34,7 @@ PANIC_OK = "0" if os.environ.get("C20_STRICT_PANIC") == "1" else "1"
 # `sylt x.sy -o - > /dev/full`: the property fixes the exit status by "compilation succeeded" and speaks of FILE only, so
 # the status of that one case is left open; C20_STRICT_STDOUT=1 requires a non-zero status there as for an unwritable FILE.
 STRICT_STDOUT = "1" if os.environ.get("C20_STRICT_STDOUT") == "1" else "0"
-TIERS = {"quick": (3, 1), "thorough": (3, 4)}       # (program variants per class, command-line spellings)
+TIERS = {"quick": (1, 1), "thorough": (3, 2)}       # (program variants per class, command-line spellings)
 
 
 def build_lua():
@@ -58,9 +58,9 @@ def flags_of(cfg):
 
 def prog_of(cfg):
     if cfg["pk"] == "acc":
-        return "acc"
+        return "acc" if cfg["why"] == "none" else "acc_" + cfg["why"]
     if cfg["pk"] == "rej":
-        return "rej%d" % cfg["pn"]
+        return "rej%d" % cfg["pn"] if cfg["why"] == "none" else "rej_" + cfg["why"]
     return "rt_" + cfg["why"]
 
 
@@ -113,7 +113,7 @@ def spec_model(wd, ev):
                                       "Progress", "Bounded"],
                        "assumes": ["UniverseWellFormed", "SinkIndependence", "NoStdNeutralForStdFree", "NoStdRejectsStdUsers"]})
     # the stricter reading (an unwritable stdout must be reported) is a consistent contract too
-    st = vlib.tlc("MC_Driver", cfg="MC_Driver_strict.cfg", wd=wd, timeout=900, workers=2, tags=(), out_file=os.path.join(wd, "tlc-MC_Driver_strict.out"))
+    st = vlib.tlc("MC_DriverLite", cfg="MC_Driver_strict.cfg", wd=wd, timeout=900, workers=2, tags=(), out_file=os.path.join(wd, "tlc-MC_Driver_strict.out"))
     vlib.require_tlc_ok(st, "SyltDriver, StrictSink = TRUE")
     ev.add("states", st.distinct)
     ev.add("transitions", st.generated)
@@ -121,7 +121,7 @@ def spec_model(wd, ev):
     broken = {}
     for cfg, inv in (("MC_Driver_faulty.cfg", "AllOrNothing"), ("MC_Driver_faulty2.cfg", "ErrorsPrinted"),
                      ("MC_Driver_faulty3.cfg", "ExitIffSuccess")):
-        f = vlib.tlc("MC_Driver", cfg=cfg, wd=wd, timeout=900, workers=2, out_file=os.path.join(wd, "tlc-" + cfg + ".out"))
+        f = vlib.tlc("MC_DriverLite", cfg=cfg, wd=wd, timeout=900, workers=2, out_file=os.path.join(wd, "tlc-" + cfg + ".out"))
         if f.timed_out or f.invariant_violated != inv:
             vlib.tool_error("negative control accepted: the defective driver model does not violate %s (%s; log %s)" % (
                 inv, f.invariant_violated, f.log))
@@ -164,7 +164,8 @@ def describe(rec, rej, what):
         "stdout": "stdout program class %s (expected %s)" % (o["soprog"], e["soprog"]),
         "chunk": "the child lua received a %s chunk (expected %s)" % (o["chunk"], e["chunk"]),
         "run-output": "stdout does not carry the run's output (%s expected)" % e["sorun"],
-        "errors-missing": "%d error blocks rendered, %d errors to print (%s)" % (o["blocks"], len(e["printed"]), ",".join(e["printed"])),
+        "errors-missing": "%d error blocks rendered, %d errors to print (%s); missing imports %s, named in the output: %s" % (
+            o["blocks"], len(e["printed"]), ",".join(e["printed"][:4]), rec["missing"], rec["blocks"]["named"]),
         "errors-extra": "%d error blocks rendered, %d errors to print" % (o["blocks"], len(e["printed"])),
         "errors-spurious": "%d error blocks rendered although the command succeeds" % o["blocks"],
         "errors-location": "rendered error blocks name other file:line than the library's error list",
@@ -187,18 +188,32 @@ def record(wd, name, cases, sylt, lua, seed=None):
     recs = vlib.read_ndjson(trace)
     if len(recs) != len(cases) or p.stdout.strip() != str(len(cases)):
         vlib.tool_error("recorder wrote %d records for %d cases" % (len(recs), len(cases)))
-    # TLC reads the facts only: sources, command line and text excerpts (kept for messages and replay files) are left out
+    return slim_trace(wd, name, recs), recs
+
+
+def slim_trace(wd, name, recs):
+    """TLC reads the facts only: sources, command line and text excerpts (kept for messages and replay files) are left out."""
     slim = os.path.join(wd, name + "-trace-tlc.ndjson")
     drop = ("files", "argv", "module")
     vlib.write_ndjson(slim, [dict({k: v for k, v in r.items() if k not in drop},
                                   so={k: v for k, v in r["so"].items() if k != "head"},
                                   se={k: v for k, v in r["se"].items() if k != "text"}) for r in recs])
-    return slim, recs
+    return slim
 
 
 # ------------------------------------------------------------------------------------------------ negative controls
 def _rejected(b):
     return b["eff"] == "rej"
+
+
+def _regular(b):
+    """-o FILE where FILE is (or will be) a regular file in the scratch directory"""
+    return b["cfg"]["mode"] == "file" and (b["cfg"]["path"] == "absent" or b["cfg"]["path"].startswith("existing"))
+
+
+def _emits_plain(b):
+    """the emitted program can be edited in place by a stub: a regular FILE or stdout of -o -"""
+    return _regular(b) or (b["cfg"]["mode"] == "stdout" and b["cfg"]["path"] == "none")
 
 
 # kind -> (which configurations the stub makes sense for (REPLAY record b), the verdict TLC must give)
@@ -210,25 +225,27 @@ STUBS = [
      "errors-missing"),
     ("twice", lambda b: _rejected(b) and b["cfg"]["path"] != "unwritable", "errors-extra"),
     ("exit-count", lambda b: b["cfg"]["pk"] == "rej" and b["cfg"]["pn"] in (256, 512) and b["cfg"]["path"] != "unwritable", "exit"),
-    ("partial-file", lambda b: _rejected(b) and b["cfg"]["mode"] == "file" and (b["cfg"]["path"] == "absent" or b["cfg"]["path"].startswith("existing")),
-     "partial-file"),
+    ("partial-file", lambda b: _rejected(b) and _regular(b), "partial-file"),
     ("truncate-file", lambda b: _rejected(b) and b["cfg"]["mode"] == "file" and b["cfg"]["path"].startswith("existing"), "partial-file"),
-    ("short-file", lambda b: b["success"] and b["cfg"]["mode"] == "file", "partial-file"),
+    ("short-file", lambda b: b["success"] and _regular(b), "partial-file"),
     ("keep-tail", lambda b: b["success"] and b["cfg"]["path"] == "existing_longer", "partial-file"),
     ("newline", lambda b: b["success"] and b["cfg"]["mode"] == "stdout", "partial-stdout"),
     ("newline", lambda b: b["success"] and b["cfg"]["mode"] == "stdout", "bytes-differ"),
-    ("req2", lambda b: b["success"] and b["cfg"]["req"] and b["cfg"]["mode"] in ("file", "stdout"), "require"),
-    ("req0", lambda b: b["success"] and b["cfg"]["req"] and b["cfg"]["mode"] in ("file", "stdout"), "require"),
-    ("req-late", lambda b: b["success"] and b["cfg"]["req"] and b["cfg"]["mode"] in ("file", "stdout"), "require"),
-    ("req-other", lambda b: b["success"] and b["cfg"]["req"] and b["cfg"]["mode"] in ("file", "stdout"), "require"),
-    ("req-stem", lambda b: b["success"] and b["cfg"]["req"] and "." in expected_module(b["cfg"]) and b["cfg"]["mode"] in ("file", "stdout"), "require"),
-    ("nostd", lambda b: b["success"] and b["eff"] == "acc" and not b["cfg"]["std"] and b["cfg"]["mode"] in ("file", "stdout"), "no-std"),
+    ("req2", lambda b: b["success"] and b["cfg"]["req"] and _emits_plain(b), "require"),
+    ("req0", lambda b: b["success"] and b["cfg"]["req"] and _emits_plain(b), "require"),
+    ("req-late", lambda b: b["success"] and b["cfg"]["req"] and _emits_plain(b), "require"),
+    ("req-other", lambda b: b["success"] and b["cfg"]["req"] and _emits_plain(b), "require"),
+    ("req-stem", lambda b: b["success"] and b["cfg"]["req"] and "." in expected_module(b["cfg"]) and _emits_plain(b), "require"),
+    ("nostd", lambda b: b["success"] and b["eff"] == "acc" and not b["cfg"]["std"] and _emits_plain(b), "no-std"),
+    ("refuse-special", lambda b: b["success"] and b["cfg"]["path"] in ("dev_null", "dev_stdout"), "exit"),
+    ("drop-missing", lambda b: b["cfg"]["why"] in ("missing2", "missing3") and b["cfg"]["path"] != "unwritable", "errors-missing"),
+    ("lose-bytes", lambda b: b["success"] and b["cfg"]["why"] in ("longline", "longline_nl") and b["cfg"]["mode"] == "stdout", "bytes-differ"),
     ("run-skip", lambda b: b["cfg"]["mode"] == "run" and b["cfg"]["std"] and b["eff"] in ("acc", "rt"), "run-output"),
 ]
 PER_STUB = 2
 
 
-def negative_controls(wd, base, cases, nv, ns, sylt, lua, main_rejects, ev):
+def negative_controls(wd, base, cases, main_recs, nv, ns, sylt, lua, main_rejects, ev):
     rng = random.Random(vlib.seed() * 7919 + 20)
     neg = [dict(c) for c in cases]
     assigned = {}                               # idx -> (kind, expected verdict)
@@ -239,8 +256,13 @@ def negative_controls(wd, base, cases, nv, ns, sylt, lua, main_rejects, ev):
         for c in rng.sample(cand, PER_STUB):
             c["stub"] = kind
             assigned[c["idx"]] = (kind, want)
-    trace, recs = record(wd, "neg", neg, sylt, lua)
-    r, rejects = validate(wd, "negative-controls", trace, nv, ns, len(neg), workers=4)
+    # only the stubbed configurations are run again; every other record of the slice is the one of the main recording
+    _, stubbed = record(wd, "neg", [c for c in neg if c["idx"] in assigned], sylt, lua)
+    recs = list(main_recs[:len(neg)])
+    for x in stubbed:
+        recs[x["idx"] - 1] = x
+    trace = slim_trace(wd, "neg-spliced", recs)
+    r, rejects = validate(wd, "negative-controls", trace, nv, ns, len(neg))
     ev.add("states", r.distinct)
     ev.add("transitions", r.generated)
     caught = {}
@@ -263,7 +285,7 @@ def negative_controls(wd, base, cases, nv, ns, sylt, lua, main_rejects, ev):
                 idx, " ".join(recs[idx - 1]["argv"]), rej["whats"]))
     ev.set(negative_controls={k: len(v) for k, v in sorted(caught.items())},
            negative_controls_rejected=len(assigned),
-           negative_control_records=len(recs),
+           negative_control_records=len(recs), negative_control_runs=len(stubbed),
            negative_control_collateral=len([i for i in rejects if i not in assigned and i not in main_rejects]))
 
 
@@ -292,6 +314,20 @@ def recording_guards(recs, ns):
                                                                        and r["after"]["digest"] == r["ref"]["lua_digest"]),
         "unwritable FILE, non-zero exit": count(lambda r: r["cfg"]["path"] in ("missing_parent", "is_directory", "unwritable_device") and r["exit"] != 0
                                                 and r["ref"]["class"] == "ok"),
+        "complete program through /dev/stdout (a pipe)": count(lambda r: r["cfg"]["path"] == "dev_stdout" and r["emit"]["present"] and r["emit"]["digest"] == r["ref"]["lua_digest"]),
+        "complete program received by the reader of a fifo": count(lambda r: r["cfg"]["path"] == "fifo" and r["after"]["k"] == "fifo" and r["after"]["len"] > 0
+                                                                   and r["after"]["digest"] == r["ref"]["lua_digest"]),
+        "complete program through a symlink (to a file / dangling)": min(
+            count(lambda r, p=p: r["cfg"]["path"] == p and r["emit"]["present"] and r["emit"]["digest"] == r["ref"]["lua_digest"]) for p in ("symlink_file", "symlink_dangling")),
+        "-o /dev/null, exit 0": count(lambda r: r["cfg"]["path"] == "dev_null" and r["exit"] == 0 and r["ref"]["class"] == "ok"),
+        "rejected program and a special FILE, errors printed": count(lambda r: r["cfg"]["path"] in ("dev_null", "dev_stdout", "fifo") and r["ref"]["class"] == "err"
+                                                                     and r["blocks"]["n"] == r["ref"]["nerrors"] > 0),
+        "two or three missing imports, each named": min(
+            count(lambda r, n=n: len(r["missing"]) == n and r["blocks"]["named"] == sorted(r["missing"]) and r["ref"]["nerrors"] >= n) for n in (2, 3)),
+        "a missing import and a syntax error, both printed": count(lambda r: r["cfg"]["why"] == "missing_plus_syntax" and r["blocks"]["named"] == r["missing"]
+                                                                   and r["blocks"]["n"] >= 2),
+        "a line of more than 8 KiB emitted on stdout": count(lambda r: r["cfg"]["why"] in ("longline", "longline_nl") and r["cfg"]["mode"] == "stdout"
+                                                             and r["emit"]["present"] and r["emit"]["len"] > 8192 + 10000),
         "program on stdout": count(lambda r: r["cfg"]["mode"] == "stdout" and r["emit"]["present"]),
         "require executed exactly once": count(lambda r: r["cfg"]["req"] and r["emit"]["present"] and r["emit"]["run"]["requires"] == [expected_module(r["cfg"])]),
         "require of a dotted module name": count(lambda r: r["cfg"]["req"] and r["emit"]["present"] and "." in expected_module(r["cfg"])
@@ -366,7 +402,7 @@ def run(ctx):
     open_status = [x for x in recs if x["cfg"]["path"] == "unwritable" and x["ref"]["class"] == "ok"]
     ev.set(traces_validated_against_impl=len(recs), evaluations=len(recs), programs=len({vlib.sha(x["files"]) for x in recs}),
            distinct_nontrivial=len({vlib.sha([x["argv"], x["files"], x["cfg"]["path"]]) for x in recs}),
-           rule="every configuration of SyltDriver's universe (10 sinks x {no --require, 6 spellings of M} x --no-std x 10 program classes x uses-std = %d), "
+           rule="every configuration of SyltDriver's universe (15 sinks x {no --require, 6 spellings of M} x --no-std x 16 program classes x uses-std = %d), "
                 "x %d program variants per class x %d command-line spellings (spelling 0 canonical, the others seeded random: "
                 "-o/--output/--output=F/-oF, --require/-r/=, argument order); a case is one run of the built sylt binary in its own scratch "
                 "directory; distinct = different (argv, program files, state of the output path)" % (len(base), nv, ns),
@@ -386,7 +422,7 @@ def run(ctx):
         # the controls (like the counters above) are calibrated for a conforming tree; the run is a failure anyway
         ev.set(negative_controls="skipped: violations found")
     else:
-        negative_controls(wd, base, ncases, 1, 1, sylt, lua, nmain, ev)
+        negative_controls(wd, base, ncases, recs, 1, 1, sylt, lua, nmain, ev)
 
     picks = [i for i in (1, 3, 68, 150, 200, 262, 330, 425, len(recs) - 2) if 0 < i <= len(recs)]
     ev.set(samples=[sample_of(recs[i - 1]) for i in picks], known_findings_hit=verdicts.known_hits)
@@ -396,6 +432,9 @@ def run(ctx):
               "an error block is a printed line ending in <source file>:<line>; wording and stream (stdout/stderr) are free",
               "unwritable FILE = parent directory missing, an existing directory, or /dev/full (all root-proof); a panic message that names the "
               "failure counts as the printed error unless C20_STRICT_PANIC=1",
+              "an error without a source location is a printed line naming the missing imported file; every planted missing import must be named, "
+              "whatever the library's error list says",
+              "/dev/stdout is exercised with stdout a pipe, the FIFO with a reader held open by the recorder; -o through a symlink is judged by reading FILE",
               "`-o -` into an unwritable stdout: only rejected programs have a required status (C20_STRICT_STDOUT=1 requires non-zero for all)",
               "`a require of M` = M without one trailing .lua (SyltDriver!ExpectedModule); --dump-tree, -v, --help and a missing file argument are outside the property")
     rc = verdicts.finish()
